@@ -487,6 +487,8 @@ def b_c16(tier):
                     same("refused write_rows")
                 df.write_cell(cell(types[0], 40, 0), position=(1, 0)); model[1][0] = cell(types[0], 40, 0); same("write_cell by position")
                 check(df.read_cell(position=(1, 0)) == model[1][0], "read_cell by position differs", expected=model[1][0])
+                # a second handle that has looked at the columns before a column is appended through the first
+                h2 = b.data_frames[df.name]; seen = (list(h2.column_names), tuple(h2.df_shape))
                 # a new column through the SAME handle whose shape was read before
                 shp0 = tuple(df.df_shape); extra = [float(r) for r in range(len(model))]
                 df.append_column(extra, "extra%d" % k, float)
@@ -494,6 +496,10 @@ def b_c16(tier):
                       [float(x) for x in df.read_columns(name=["extra%d" % k])] == extra,
                       "after append_column the same handle does not show the new column", shape_before=shp0, shape_after=tuple(df.df_shape),
                       names=list(df.column_names))
+                check(list(h2.column_names) == list(df.column_names) and tuple(h2.df_shape) == tuple(df.df_shape) and
+                      [float(x) for x in h2.read_columns(index=[len(names)])] == extra,
+                      "a second handle on the frame does not show the column appended through the first", second=list(h2.column_names),
+                      first=list(df.column_names), before=seen)
             try:
                 b.create_data_frame("dup%d" % k, "t", col_names=names + [names[0]], col_dtypes=types + [types[0]])
                 check(False, "a duplicate column name was accepted (names+dtypes)")
@@ -592,6 +598,20 @@ def b_c05(tier):
     check([float(x) for x in rd.ticks] == [2.0, 4.0], "a range dimension linked to a frame column does not report that column")
     rd.link_data_frame(df2, 0)
     check([float(x) for x in rd.ticks] == [5.0, 7.0], "re-linking to another frame still reports the old target", ticks=list(rd.ticks))
+    # a linked range dimension forwards unit and label of the array it is linked to - also when it carried its own before
+    srcv = b0.create_data_array("lsrc", "t", data=np.array([0.5, 1.5, 2.5])); srcv.unit = "ms"; srcv.label = "time"
+    own = b0.create_data_array("lown", "t", data=np.array([1.0, 2.0, 3.0]))
+    ld = own.append_range_dimension(ticks=[0.0, 1.0, 2.0], label="own label", unit="s")
+    ld.link_data_array(srcv, [-1])
+    check(ld.unit == "ms" and ld.label == "time" and [float(x) for x in ld.ticks] == [0.5, 1.5, 2.5],
+          "a linked range dimension does not report ticks / unit / label of the linked array", unit=ld.unit, label=ld.label, ticks=list(ld.ticks))
+    srcv.unit = "s"; srcv.label = "t2"
+    check(ld.unit == "s" and ld.label == "t2", "a change of the linked array's unit / label is not visible through the dimension", unit=ld.unit,
+          label=ld.label)
+    ld.unit = "ks"; ld.label = "via dim"
+    check(srcv.unit == "ks" and srcv.label == "via dim" and ld.unit == "ks" and ld.label == "via dim",
+          "a unit / label set through a linked dimension does not reach the linked array (or is not read back)", array=[srcv.unit, srcv.label],
+          dim=[ld.unit, ld.label])
     # a feature's data: refused assignments (an entity of another block, of either kind) leave the link AND its kind as they were
     fdf = b1.create_data_frame("df1", "t", col_dict={"c0": float}, data=[(1.0,)])
     for tg in (t, mt):
@@ -819,6 +839,10 @@ def b_c12(tier):
         ("create_data_array unsupported dtype", lambda: b.create_data_array("fresh", "t", dtype="nonsense", shape=(2,))),
         ("create_tag non-numeric position", lambda: b.create_tag("fresh", "t", ["a"])),
         ("append non-convertible data", lambda: a.append(np.array([["a", "b", "c", "d"]]))),
+        ("append complex data", lambda: a.append(np.array([[1j, 2j, 3j, 4j]]))),
+        ("append bytes data", lambda: a.append(np.array([[b"a", b"b", b"c", b"d"]]))),
+        ("append object data", lambda: a.append(np.array([[None, {}, [], ()]], dtype=object))),
+        ("append datetime data", lambda: a.append(np.array([["2020-01-01"] * 4], dtype="datetime64[D]"))),
         ("append_range_dimension unsorted ticks", lambda: a.append_range_dimension(ticks=[3.0, 1.0])),
         ("append_range_dimension wrong unit type", lambda: a.append_range_dimension(ticks=[1.0, 2.0], unit=5)),
         ("append_sampled_dimension wrong interval type", lambda: a.append_sampled_dimension("x")),
@@ -844,8 +868,41 @@ def b_c12(tier):
             continue            # accepted by this tree: not a refusal scenario (acceptance is judged by other batteries)
         r = diff(before, walk_file(f))
         check(r is None, "a refused call changed the file", call=name, where=r)
+    # a refusal must not disturb live handles either: containers emptied earlier, then a refused creation, then a legal one
+    a2 = b.create_data_array("hd", "t", data=[1.0, 2.0]); a2.append_set_dimension(["x", "y"]); a2.delete_dimensions()
+    try:
+        a2.append_range_dimension(ticks=[3.0, 1.0])
+    except Exception:
+        pass
+    a2.append_set_dimension(["x", "y"])
+    check(len(a2.dimensions) == len(b.data_arrays["hd"].dimensions) == 1, "after a refused append_range_dimension a live handle and a fresh one disagree",
+          live=len(a2.dimensions), fresh=len(b.data_arrays["hd"].dimensions))
+    nb = f.create_block("hb", "t"); cont = nb.data_arrays; nb.create_data_array("x", "t", data=[1.0]); del cont["x"]
+    try:
+        nb.create_data_array("z", "t", data=[1.0], unit=5)
+    except Exception:
+        pass
+    nb.create_data_array("ok", "t", data=[1.0])
+    check(len(cont) == len(f.blocks["hb"].data_arrays) == 1, "after a refused create_data_array a live container and a fresh one disagree",
+          live=len(cont), fresh=len(f.blocks["hb"].data_arrays))
+    tg = nb.tags; nb.create_tag("t1", "t", [0.0]); del tg["t1"]
+    try:
+        nb.create_tag("t2", "t", ["a"])
+    except Exception:
+        pass
+    nb.create_tag("t3", "t", [1.0])
+    check(len(tg) == len(f.blocks["hb"].tags) == 1, "after a refused create_tag a live container and a fresh one disagree", live=len(tg),
+          fresh=len(f.blocks["hb"].tags))
+    tt = nb.create_tag("t4", "t", [1.0]); fts = tt.features; ft = tt.create_feature(nb.data_arrays["ok"], nixio.LinkType.Untagged); del fts[ft.id]
+    try:
+        tt.create_feature(other.data_arrays["ints"], nixio.LinkType.Untagged)
+    except Exception:
+        pass
+    tt.create_feature(nb.data_arrays["ok"], nixio.LinkType.Untagged)
+    check(len(fts) == len(nb.tags["t4"].features) == 1, "after a refused create_feature a live container and a fresh one disagree", live=len(fts),
+          fresh=len(nb.tags["t4"].features))
     f.close()
-    return "one sample file x %d refused calls (duplicate / illegal names, empty type, wrong or inconsistent types, shape mismatches, foreign / wrong-kind objects, invalid link index, out-of-range index, copies onto existing names): canonical walk before = after" % len(calls)
+    return "one sample file x %d refused calls (duplicate / illegal names, empty type, wrong or inconsistent types, shape mismatches, foreign / wrong-kind objects, invalid link index, out-of-range index, copies onto existing names): canonical walk before = after; live handles vs fresh handles after refusals on emptied containers" % len(calls)
 
 
 # ------------------------------------------------------------------------------------------------------------------
@@ -980,6 +1037,21 @@ def b_c20(tier):
                     call("cp"); check(False, "copying onto an existing name was accepted", into=where)
                 except NameError:
                     N[0] += 1
+            # sub-sections, whichever way the handle was obtained and whatever the parent holds
+            bare = f.create_section("bare%s%s" % (keep, children), "t"); made = bare.create_section("inner", "t"); made.create_property("q", [1.5])
+            for label, src_sec in (("handle from create_section, parent without properties", made),
+                                   ("handle fetched through the parent", f.sections[bare.name].sections["inner"]),
+                                   ("handle fetched through the parent, parent with properties", f.sections["sess"].sections["sub"])):
+                for where, tgt in (("file", f), ("section", dest)):
+                    nm = "sc%d" % (len(f.sections) + len(dest.sections))
+                    try:
+                        c = tgt.copy_section(src_sec, children=children, keep_id=keep, name=nm)
+                    except Exception as e:
+                        check(False, "a legal copy of a sub-section was refused", handle=label, into=where, children=children, keep_id=keep,
+                              error=repr(e)[:160]); continue
+                    check(c.name == nm and [p.name for p in c.props] == [p.name for p in src_sec.props] and
+                          [tuple(p.values) for p in c.props] == [tuple(p.values) for p in src_sec.props] and ((c.id == src_sec.id) == keep),
+                          "the copy of a sub-section is not a faithful copy under the requested id policy", handle=label, into=where)
             p = dest.create_property(copy_from=sec.props["n"], keep_copy_id=keep, name="pcopy") if True else None
             check(p.name == "pcopy" and tuple(p.values) == tuple(sec.props["n"].values) and ((p.id == sec.props["n"].id) == keep),
                   "a copied property is not a faithful copy under the requested id policy", keep_id=keep, name=p.name)
@@ -1261,6 +1333,16 @@ def b_c11(tier):
         "metadata link": lambda: setattr(a, "metadata", s), "force_updated_at": lambda: b.force_updated_at(),
         "file force_updated_at": lambda: g.force_updated_at(), "copy block": lambda: g.create_block(name="cp", copy_from=b),
         "copy section": lambda: g.copy_section(s, name="cps"),
+        "unlink from group": lambda: b.groups[0].data_arrays.__delitem__(b.groups[0].data_arrays[0]),
+        "unlink reference": lambda: b.tags[0].references.__delitem__(b.tags[0].references[0]),
+        "unlink source": lambda: b.data_arrays["same"].sources.__delitem__(b.data_arrays["same"].sources[0]),
+        "clear block metadata": lambda: delattr(b, "metadata") if False else setattr(b, "metadata", None),
+        "clear array metadata": lambda: setattr(b.data_arrays["same"], "metadata", None),
+        "delete feature": lambda: b.tags[0].features.__delitem__(b.tags[0].features[0]),
+        "clear extents": lambda: setattr(b.multi_tags[0], "extents", None),
+        "clear tag units": lambda: setattr(b.tags[0], "units", None),
+        "delete property": lambda: s.props.__delitem__("n"),
+        "delete dimensions": lambda: a.delete_dimensions(),
     }
     for nm, m in muts.items():
         try:
@@ -1280,7 +1362,7 @@ def b_c11(tier):
     check(len(g.blocks) == 0 and tuple(g.version) == LIB, "read-write on a missing path did not create an empty file"); g.close()
     shutil.rmtree(d, ignore_errors=True)
     return ("%d header variants: version grid around the library's x {valid, invalid, missing} id x {nix, other} format tag x 3 modes x "
-            "{library-written file, foreign HDF5 layout}; 25 mutating calls on a read-only sample file; missing paths" % k)
+            "{library-written file, foreign HDF5 layout}; 35 mutating calls on a read-only sample file; missing paths" % k)
 
 
 def b_c10(tier):
@@ -1919,6 +2001,17 @@ def b_c14(tier):
         "missing type (block)": ("Block:blk", lambda f, b: raw(b).attrs.__delitem__("type"), [VE.NoType]),
     }
     OPTIONAL = {"missing ticks": {VE.RangeDimTicksMismatch.format(1)}}       # no ticks is also a tick count of 0
+    SI = ["m", "g", "s", "A", "K", "mol", "cd", "Hz", "N", "Pa", "J", "W", "C", "V", "F", "S", "Wb", "T", "H", "lm", "lx", "Bq", "Gy", "Sv", "kat",
+          "l", "L", "Ohm", "dB", "rad"]
+    f = build(); bl = f.blocks["blk"]; fr = bl.data_arrays["free"]
+    for i, u in enumerate(SI):
+        for pre in ("", "k", "m", "u", "M", "da"):
+            fr.dimensions[0].unit = pre + u
+            if i % 3 == 0 and pre in ("", "k"):
+                bl.tags["tag1d"].units = [pre + u]; bl.data_arrays["other"].dimensions[0].unit = u
+            r = report(f)
+            check(r == {}, "an atomic SI unit on a dimension / tag of an otherwise consistent file is reported as an error", unit=pre + u, reported=r)
+    f.close()
     f = build(); r = report(f); f.close()
     check(r == {}, "a consistent file is reported to have errors", reported=r)
     names = list(INJ)
@@ -1973,6 +2066,135 @@ def b_c14(tier):
             "injections of catalogue inconsistencies and %d pairs at independent objects; report compared object by object" % (len(names), npairs))
 
 
+def b_c07(tier):
+    """descriptors: generated axes, position <-> index conversions and index ranges against the order-theoretic definition"""
+    import nixio
+    from nixio import IndexMode, SliceMode
+    f = newfile(); b = f.create_block("b", "t")
+    k = [0]
+
+    def fresh_array(n=40):
+        k[0] += 1
+        return b.create_data_array("a%d" % k[0], "t", data=np.zeros(n))
+
+    def spec_index(pos_list, p, mode, unbounded):
+        """pos_list: sample positions (ascending); unbounded: samples continue beyond the list (sampled dimension)"""
+        if mode == IndexMode.LessOrEqual:
+            c = [i for i, x in enumerate(pos_list) if x <= p]
+        elif mode == IndexMode.Less:
+            c = [i for i, x in enumerate(pos_list) if x < p]
+        else:
+            c = [i for i, x in enumerate(pos_list) if x >= p]
+            return c[0] if c else ("beyond" if unbounded else None)
+        if unbounded and c and c[-1] == len(pos_list) - 1:
+            return "beyond"
+        return c[-1] if c else None
+    intervals = [0.1, 0.2, 0.3, 0.25, 1.0, 2.0, 0.001] if tier != "quick" else [0.1, 0.3, 0.25, 2.0]
+    offsets = [0.0, 0.05, -1.0, 3.7] if tier != "quick" else [0.0, -1.0, 3.7]
+    for si in intervals:
+        for off in offsets:
+            da = fresh_array(); dim = da.append_sampled_dimension(si, offset=off)
+            for count in range(0, 31):
+                for start in (None, 0, 3):
+                    ax = dim.axis(count) if start is None else dim.axis(count, start)
+                    s0 = start or 0
+                    check(len(ax) == count, "a generated axis does not have the requested number of entries", interval=si, offset=off, count=count,
+                          start=start, got=len(ax))
+                    okp = all(abs(ax[j] - dim.position_at(s0 + j)) <= 1e-9 * max(1.0, abs(ax[j])) for j in range(min(len(ax), count)))
+                    check(okp, "a generated axis disagrees with position_at", interval=si, offset=off, count=count, start=start)
+            ax = dim.axis(12, start_position=off + 2 * si)
+            check(len(ax) == 12 and abs(ax[0] - (off + 2 * si)) < 1e-12, "an axis from a start position does not start there", interval=si, offset=off)
+            n = 12; pos = [off + j * si for j in range(n)]
+            for j in range(n):
+                check(dim.index_of(dim.position_at(j)) == j, "converting the position of sample i back does not yield i", interval=si, offset=off, i=j)
+            # between samples / before the first (away from the rounding band around samples)
+            for j in range(n - 1):
+                mid = pos[j] + si / 2
+                for mode, want in ((IndexMode.LessOrEqual, j), (IndexMode.Less, j), (IndexMode.GreaterOrEqual, j + 1)):
+                    check(dim.index_of(mid, mode) == want, "index_of between two samples is not the order-theoretic answer", interval=si, offset=off,
+                          position=mid, mode=str(mode), got=_safe(lambda: dim.index_of(mid, mode)), expected=want)
+            for mode, want in ((IndexMode.LessOrEqual, None), (IndexMode.Less, None), (IndexMode.GreaterOrEqual, 0)):
+                try:
+                    got = dim.index_of(off - si / 2, mode)
+                    check(got == want, "index_of before the first sample", mode=str(mode), got=got, expected=want, interval=si, offset=off)
+                except IndexError:
+                    check(want is None, "index_of raised although a sample exists", mode=str(mode), interval=si, offset=off)
+            for mode, want in ((IndexMode.Less, None), (IndexMode.LessOrEqual, 0), (IndexMode.GreaterOrEqual, 0)):
+                try:
+                    got = dim.index_of(off, mode)
+                    check(got == want, "index_of exactly on the first sample", mode=str(mode), got=got, expected=want, interval=si, offset=off)
+                except IndexError:
+                    check(want is None, "index_of raised although a sample exists", mode=str(mode), interval=si, offset=off, position=off)
+            for a_, e_ in ((1, 4), (0, 0), (2, 9)):
+                lo, hi = pos[a_] - si / 4, pos[e_] + si / 4
+                check(dim.range_indices(lo, hi, SliceMode.Inclusive) == (a_ if lo <= pos[a_] else a_ + 1, e_) and
+                      dim.range_indices(lo, hi, SliceMode.Exclusive) == (a_, e_), "range_indices does not cover exactly the samples in the interval",
+                      interval=si, offset=off, start=lo, end=hi, got=[_safe(lambda: dim.range_indices(lo, hi, SliceMode.Inclusive)),
+                                                                     _safe(lambda: dim.range_indices(lo, hi, SliceMode.Exclusive))])
+                r_in = dim.range_indices(pos[a_] + si / 2 - si / 2, pos[e_], SliceMode.Inclusive); r_ex = dim.range_indices(pos[a_], pos[e_], SliceMode.Exclusive)
+                check(r_in == (a_, e_), "a closed interval ending on a sample does not include it", interval=si, offset=off, got=r_in, expected=[a_, e_])
+                check(r_ex == ((a_, e_ - 1) if e_ > a_ else None), "an interval open at the end includes its end sample (or is not empty)", interval=si,
+                      offset=off, got=r_ex, expected=[a_, e_ - 1] if e_ > a_ else None)
+            check(dim.range_indices(pos[2] + si / 4, pos[2] + si / 2, SliceMode.Inclusive) is None, "an interval between two samples is not reported empty",
+                  interval=si, offset=off)
+    # range dimensions: several tick vectors incl. repeated and single ticks
+    for ticks in ([0.5], [1.0, 2.0, 4.0, 8.0], [-3.0, -1.5, 0.0, 0.25, 10.0], [1.0, 2.0, 2.0, 3.0], [0.0, 1e-3, 2e-3]):
+        da = fresh_array(len(ticks)); dim = da.append_range_dimension(ticks=ticks); n = len(ticks)
+        probes = sorted(set(ticks + [t - 0.1 for t in ticks[:1]] + [t + 0.1 for t in ticks[-1:]] + [(x + y) / 2 for x, y in zip(ticks, ticks[1:]) if x != y]))
+        for p in probes:
+            for mode in (IndexMode.LessOrEqual, IndexMode.Less, IndexMode.GreaterOrEqual):
+                want = spec_index(ticks, p, mode, False)
+                try:
+                    got = dim.index_of(p, mode)
+                    check(got == want, "index_of on a range dimension is not the order-theoretic answer", ticks=ticks, position=p, mode=str(mode),
+                          got=got, expected=want)
+                except IndexError:
+                    check(want is None, "index_of raised although a tick exists", ticks=ticks, position=p, mode=str(mode), expected=want)
+        for j in range(n):
+            check(dim.tick_at(j) == ticks[j] and list(dim.axis(n - j, j)) == ticks[j:], "tick_at / axis disagree with the ticks", ticks=ticks, i=j)
+        for lo in probes:
+            for hi in probes:
+                if hi < lo:
+                    continue
+                for mode in (SliceMode.Inclusive, SliceMode.Exclusive):
+                    inside = [i for i, t in enumerate(ticks) if lo <= t and (t <= hi if mode == SliceMode.Inclusive else t < hi)]
+                    want = (inside[0], inside[-1]) if inside else None
+                    got = dim.range_indices(lo, hi, mode)
+                    check(got == want, "range_indices on a range dimension does not cover exactly the ticks in the interval", ticks=ticks, start=lo, end=hi,
+                          mode=str(mode), got=got, expected=want)
+        try:
+            dim.axis(n + 1); check(False, "an axis longer than the ticks was handed out", ticks=ticks)
+        except IndexError:
+            N[0] += 1
+    # set dimensions: positions are category indices
+    for labels in (None, ["a"], ["a", "b", "c", "d"]):
+        da = fresh_array(4); dim = da.append_set_dimension(labels) if labels else da.append_set_dimension(); n = len(labels) if labels else None
+        cats = list(range(n)) if n else list(range(6))
+        for p in [-0.5, 0, 0.4, 1, 2.5, 3, 3.5, 7.2]:
+            for mode in (IndexMode.LessOrEqual, IndexMode.Less, IndexMode.GreaterOrEqual):
+                full = cats if n else list(range(0, 12))
+                want = spec_index([float(c) for c in full], p, mode, False)
+                try:
+                    got = dim.index_of(p, mode)
+                    check(got == want, "index_of on a set dimension is not the order-theoretic answer", labels=labels, position=p, mode=str(mode), got=got,
+                          expected=want)
+                except IndexError:
+                    check(want is None, "index_of on a set dimension raised although a category exists", labels=labels, position=p, mode=str(mode),
+                          expected=want)
+        for lo, hi in ((0, 2), (0.5, 2), (1, 1), (1.2, 1.8), (0, 3), (2, 5.5)):
+            for mode in (SliceMode.Inclusive, SliceMode.Exclusive):
+                full = cats if n else list(range(0, 12))
+                inside = [c for c in full if lo <= c and (c <= hi if mode == SliceMode.Inclusive else c < hi)]
+                want = (inside[0], inside[-1]) if inside else None
+                got = dim.range_indices(lo, hi, mode)
+                check(got == want, "range_indices on a set dimension does not cover exactly the categories in the interval", labels=labels, start=lo,
+                      end=hi, mode=str(mode), got=got, expected=want)
+    f.close()
+    return ("%d sampled descriptors (interval x offset): axes of 0..30 entries x 3 starts, round trip of 12 samples, positions between / before / "
+            "on samples x 3 modes, 3 index ranges x 2 modes; 5 tick vectors (single, repeated, negative, tiny): every tick and midpoint x 3 modes, "
+            "every probe pair x 2 modes, tick_at / axis; set descriptors without / with 1 / 4 labels" % (len(intervals) * len(offsets)))
+
+
 def _ids(w):
     out = []
     if isinstance(w, dict):
@@ -2001,7 +2223,7 @@ def _links(e):
     return out
 
 
-BATTERIES = {"c02": b_c02, "c13": b_c13, "c08": b_c08, "c16": b_c16, "c05": b_c05, "c04": b_c04, "c03": b_c03, "c12": b_c12, "c20": b_c20, "c18": b_c18, "c11": b_c11, "c10": b_c10, "c01": b_c01, "c17": b_c17, "c19": b_c19, "c14": b_c14}
+BATTERIES = {"c02": b_c02, "c13": b_c13, "c08": b_c08, "c16": b_c16, "c05": b_c05, "c04": b_c04, "c03": b_c03, "c12": b_c12, "c20": b_c20, "c18": b_c18, "c11": b_c11, "c10": b_c10, "c01": b_c01, "c17": b_c17, "c19": b_c19, "c14": b_c14, "c07": b_c07}
 
 
 def main():
